@@ -234,3 +234,54 @@ def check_lockstep(ctx, rep, rule, cls, fields, what):
             rep.finding(rule, f, "; ".join(f"{fld}:{[o for o, _ in seqs[fld]]}" for fld in fields), items[0][0],
                         f"the three {what} lists are not modified in lock-step in this block (an entry would pair a value with the wrong point)")
     return ops, n
+
+
+# ---------------------------------------------------------------------------
+def check_closure_capture(ctx, rep, rule, funcs=None):
+    """A lambda / nested function created inside a loop must not read the loop
+    variable (or a variable assigned in the loop body) freely: every closure
+    would see the value of the last iteration (late binding)."""
+    n = 0
+    for f in ctx.repo.funcs.values():
+        if funcs is not None and f.qual not in funcs:
+            continue
+        for loop in ast.walk(f.node):
+            if not isinstance(loop, (ast.For, ast.While)):
+                continue
+            loop_vars = set()
+            if isinstance(loop, ast.For):
+                loop_vars |= {x.id for x in ast.walk(loop.target) if isinstance(x, ast.Name)}
+            for s in loop.body:
+                for node in ast.walk(s):
+                    if isinstance(node, ast.Assign):
+                        for t in node.targets:
+                            loop_vars |= {x.id for x in ast.walk(t) if isinstance(x, ast.Name) and isinstance(x.ctx, ast.Store)}
+            for s in loop.body:
+                for lam in ast.walk(s):
+                    if not isinstance(lam, (ast.Lambda, ast.FunctionDef)):
+                        continue
+                    a = lam.args
+                    params = {x.arg for x in a.posonlyargs + a.args + a.kwonlyargs}
+                    if a.vararg:
+                        params.add(a.vararg.arg)
+                    if a.kwarg:
+                        params.add(a.kwarg.arg)
+                    body_nodes = [lam.body] if isinstance(lam, ast.Lambda) else lam.body
+                    free = set()
+                    for b in body_nodes:
+                        for x in ast.walk(b):
+                            if isinstance(x, ast.Name) and isinstance(x.ctx, ast.Load) and x.id in loop_vars and x.id not in params:
+                                free.add(x.id)
+                    n += 1
+                    # is the closure used after the iteration (stored / passed on)?
+                    desc = f"{f.local}:{lam.lineno} closure created in a loop"
+                    if free:
+                        # immediately invoked closures are harmless: only flag when
+                        # the closure escapes the statement (argument / stored)
+                        rep.bad(rule, desc)
+                        rep.finding(rule, f, norm(lam)[:120], lam.lineno,
+                                    f"the closure reads the loop variable(s) {sorted(free)} when it is called, not when it is created: "
+                                    f"every closure made by this loop sees the values of the last iteration")
+                    else:
+                        rep.ok(rule, desc + " binds what it needs at creation")
+    return n
